@@ -292,6 +292,11 @@ func (e *SutEnv) RunTx(i int) *TxResult {
 		e.EVM = avm.NewEVM(bc, txc, db, chainConfig(sc.Fork, sc.Block), cfg)
 		e.Host.EVM = e.EVM
 		e.evmP.Store(e.EVM)
+	} else if sc.resetBefore(i) {
+		// what a host does between the transactions of a block when it keeps the EVM object
+		msg := &ecore.Message{From: from, Value: value, GasLimit: gas, GasPrice: new(big.Int).SetUint64(sc.Block.GasPrice), Data: unhex(tx.Data)}
+		e.EVM.Reset(avm.TxContext{Origin: from, GasPrice: new(big.Int).SetUint64(sc.Block.GasPrice), Message: msg}, db)
+		e.L.Probe("evm-reset-between-transactions")
 	}
 	e.EVMs = append(e.EVMs, e.EVM)
 	evmI := e.EVM
@@ -441,6 +446,8 @@ func (e *RefEnv) RunTx(i int) *TxResult {
 		}
 		txc := evm.TxContext{Origin: from, GasPrice: new(big.Int).SetUint64(sc.Block.GasPrice)}
 		e.EVM = evm.NewEVM(refBlockCtx(sc), txc, e.St, chainConfig(sc.Fork, sc.Block), cfg)
+	} else if sc.resetBefore(i) {
+		e.EVM.Reset(evm.TxContext{Origin: from, GasPrice: new(big.Int).SetUint64(sc.Block.GasPrice)}, e.St)
 	}
 	evmI := e.EVM
 	rules := evmI.ChainConfig().Rules(evmI.Context.BlockNumber, evmI.Context.Random != nil, evmI.Context.Time)
